@@ -798,7 +798,7 @@ TIME_TAGS = {31: 'translate_nmtran_time differs from the binary64 model (exact c
              34: 'translated TIME differs from hours since the first record by the calendar',
              35: 'translated TIME is not within 4 ulp of the calendar difference'}
 TIME_GUARDS = {221: ('g_three_parts', 'finding', 'C13-DATE-TWO-PART'), 222: ('g_has_date', 'finding', 'C13-TIME-CLOCK-NO-DATE'),
-               223: ('g_no_daynum', 'finding', 'C13-DATE-DAYNUM-ABSOLUTE'), 225: ('g_split_exact', 'finding', 'C13-TIME-SPLIT-TRUNCATION')}
+               223: ('g_no_daynum', 'finding', 'C13-DATE-DAYNUM-ABSOLUTE')}
 TIME_CORR = (31, 36)
 
 
@@ -882,7 +882,8 @@ def time_observe(spec, workdir, idx):
 
 
 def run_times(ctx, n, nm):
-    specs = [gen_time_spec(ctx.rng) for _ in range(n)] + [gen_time_spec(ctx.rng, malformed=True) for _ in range(nm)]
+    regs = [json.loads(p.read_text()) for p in sorted((VERIF / 'regress' / 'C13').glob('*.json'))]
+    specs = [r['time_spec'] for r in regs if 'time_spec' in r] + [gen_time_spec(ctx.rng) for _ in range(n)] + [gen_time_spec(ctx.rng, malformed=True) for _ in range(nm)]
     terms, kept, infos, skipped = [], [], [], 0
     for k, spec in enumerate(specs):
         try:
@@ -913,7 +914,7 @@ def classify_time(ctx, spec, tags):
     tags = set(tags)
     corr = [t for t in tags if t in TIME_CORR]
     status = 'ok'
-    for prop, guards in ((34, (221, 222, 223)), (35, (225,))):
+    for prop, guards in ((34, (221, 222, 223)), (35, ())):
         if prop not in tags:
             continue
         open_f = [TIME_GUARDS[t][2] for t in guards if t in tags and ctx.open_finding(TIME_GUARDS[t][2])]
@@ -1175,7 +1176,7 @@ def run(ctx):
     finding_probes(ctx)
     reg = sorted((VERIF / 'regress' / 'C13').glob('*.json'))
     specs = [json.loads(p.read_text()) for p in reg]
-    specs = [s['spec'] if 'spec' in s else s for s in specs]
+    specs = [s['spec'] if 'spec' in s else s for s in specs if 'time_spec' not in s]
     nreg = len(specs)
     n = 700 if ctx.tier == 'quick' else 6000
     nm = 150 if ctx.tier == 'quick' else 1500
